@@ -31,28 +31,30 @@ def main():
             print(f"[{n}] missing files")
             continue
         rid = f"{prop}-r{n}"
-        scratch = f"/tmp/verify-{rid}"
-        if os.path.exists(scratch):
-            run(["git", "-C", "/repo", "worktree", "remove", "--force", scratch], "/")
-        rc, out = run(["git", "-C", "/repo", "worktree", "add", "--detach", scratch, "HEAD", "-q"], "/")
-        if rc:
-            print("worktree failed", out)
+        # the agent's own worktree is a clean checkout of /repo HEAD (its scripts assert that path): verify there
+        rc, out = run("git status --porcelain -- pycomm3", wt)
+        if out.strip():
+            run("git checkout -- pycomm3", wt)
+        head_wt = run("git rev-parse HEAD", wt)[1].strip()
+        head_repo = run("git -C /repo rev-parse HEAD", "/")[1].strip()
+        if head_wt != head_repo:
+            print(f"[{n}] worktree is at {head_wt[:8]}, /repo at {head_repo[:8]}")
             continue
+        env = {"PYTHONPATH": wt}
+        script = os.path.join("refactors", n, "diff_check.py")
         try:
-            shutil.copy(os.path.join(src, "diff_check.py"), os.path.join(scratch, "diff_check.py"))
-            env = {"PYTHONPATH": scratch}
-            rc0, out0 = run([PY, "diff_check.py"], scratch, env)
-            rc, out = run(["git", "apply", os.path.join(src, "patch.diff")], scratch)
+            rc0, out0 = run([PY, script], wt, env)
+            rc, out = run(["git", "apply", os.path.join(src, "patch.diff")], wt)
             if rc:
                 print(f"[{n}] patch does not apply: {out[:200]}")
                 continue
-            rc1, out1 = run([PY, "diff_check.py"], scratch, env)
-            rc2, out2 = run([PY, "-m", "pytest", "-q", "-p", "no:cacheprovider", "tests/offline"], scratch, env)
+            rc1, out1 = run([PY, script], wt, env)
+            rc2, out2 = run([PY, "-m", "pytest", "-q", "-p", "no:cacheprovider", "tests/offline"], wt, env)
             tail = out2.strip().splitlines()[-1] if out2.strip() else ""
             same = rc0 == rc1 == 0 and out0 == out1 and len(out0) > 50
             print(f"[{n}] diff_check identical: {same} ({len(out0)} bytes of transcript, exits {rc0}/{rc1}); suite: {tail}")
             if not (same and "366 passed" in tail):
-                print(f"[{n}] REJECTED")
+                print(f"[{n}] REJECTED", (out0[-300:] if rc0 else ""))
                 continue
             dst = os.path.join("/verif/refactors", rid)
             os.makedirs(dst, exist_ok=True)
@@ -66,7 +68,7 @@ def main():
             except Exception:
                 print(f"[{n}] KEPT {dst}")
         finally:
-            run(["git", "-C", "/repo", "worktree", "remove", "--force", scratch], "/")
+            run("git checkout -- pycomm3", wt)
     # what do the checks say?
     sys.path.insert(0, "/verif")
     from sa import rules  # noqa: F401
